@@ -500,11 +500,16 @@ def rand_tree(rng, depth):
     sub = lambda: rand_tree(rng, depth - 1 if rng.random() < 0.75 else rng.randint(0, depth - 1))
     r = rng.random()
     if r < 0.16:
-        return t_path("Vec", [sub()], q(rng, "Vec"))
+        return t_path("Vec", [sub()] + ([t_path("Global")] if rng.random() < 0.1 else []), q(rng, "Vec"))
     if r < 0.30:
         return t_path("Option", [sub()], q(rng, "Option"))
     if r < 0.44:
-        return t_path("HashMap", [sub(), sub()], q(rng, "HashMap"))
+        extra = []
+        if rng.random() < 0.2:
+            # an explicit hasher / an extra argument: only the first two arguments are the key and the value (so is it for
+            # Vec<T, A>, Box<T, A>: every argument after the ones that matter is ignored)
+            extra = [rng.choice([t_path("RandomState"), t_path("BuildHasherDefault", [t_path("FxHasher")]), t_path("u8")])]
+        return t_path("HashMap", [sub(), sub()] + extra, q(rng, "HashMap"))
     if r < 0.58:
         sp = rng.choice(SMART)
         return t_path(sp, [sub()], q(rng, sp), lt=(sp == "Cow"))
@@ -565,6 +570,7 @@ def run_batch(check, cases, tag):
     reqs = [mk_requests(*c) for c in cases]
     mans = model([m for m, _, _ in reqs], with_unicode=False)
     rans = runner([r for _, r, _ in reqs])
+    mismatch = None
     for (lang, cfg, gens, syn), (m, r, text), ma, ra in zip(cases, reqs, mans, rans):
         ma, ra = norm_ans(ma), norm_ans(ra)
         nontrivial = syn[0] != "path" or bool(syn[3]) or bool(cfg.get("type_mappings"))
@@ -578,11 +584,10 @@ def run_batch(check, cases, tag):
                             case=case, impl=ra, model=ma, failing_input=True)
             return True
         if ma != ra:
-            check.violation("Language::format_type differs from the model on `%s` (%s): impl %s, model %s"
-                            % (text, lang, ra, ma), case=case, impl=ra, model=ma, failing_input=False,
-                            broken="correspondence L0 format_type / L1 tryFrom (theorems TsV.C05.C05_compositional, "
-                                   "TsV.C05.C05_transparent, TsV.C05.C05_mappings, TsV.C05.C05_prims_partial)")
-            return True
+            # keep scanning the batch: a later case may show the property itself failing on the implementation
+            if mismatch is None:
+                mismatch = ("Language::format_type differs from the model on `%s` (%s): impl %s, model %s" % (text, lang, ra, ma), case, ra, ma)
+            continue
         if "ok" in ra:
             check.count(tag + "-translated")
             if any(v and ("%s" % v) in ra["ok"] for v in cfg.get("type_mappings", {}).values()):
@@ -593,6 +598,12 @@ def run_batch(check, cases, tag):
                 sum(1 for x in check.samples if x.get("lang") == lang) < 1:
             check.sample({"lang": lang, "rust_type": text, "generics": list(gens), "type_mappings": cfg["type_mappings"],
                           "prefix": cfg.get("prefix"), "target": ra["ok"]})
+    if mismatch:
+        what, case, ra, ma = mismatch
+        check.violation(what, case=case, impl=ra, model=ma, failing_input=False,
+                        broken="correspondence L0 format_type / L1 tryFrom (theorems TsV.C05.C05_compositional, "
+                               "TsV.C05.C05_transparent, TsV.C05.C05_mappings, TsV.C05.C05_prims_partial)")
+        return True
     return False
 
 
